@@ -106,7 +106,8 @@ impl<T: Elem + SatisfyTraits<Tr>, M: MX, Tr: TrX + ?Sized> World<T, M, Tr> {
             Ok(a) => a,
             Err(e) => return Err(format!("construction panicked: {e:?}")),
         };
-        if T::SIZE != 0 && a.capacity() != cap { return Err(format!("constructed capacity {} != requested {}", a.capacity(), cap)); }
+        if T::SIZE != 0 && a.capacity() != cap { return Err(format!("{}constructed capacity {} != expected {}", if M::RESIZABLE { "" } else { "FIXED-CAPACITY: " }, a.capacity(), cap)); }
+        if T::SIZE == 0 && M::KIND == BK::Stack && a.capacity() < 1 << 32 { return Err(format!("FIXED-CAPACITY: Stack capacity for a zero-sized element is {} (must be unbounded)", a.capacity())); }
         let mut ma = Vec::with_capacity(len + 4);
         let fill = match st.spare { Spare::Pristine => len, _ => if T::SIZE == 0 { len } else { cap } };
         {
@@ -120,7 +121,8 @@ impl<T: Elem + SatisfyTraits<Tr>, M: MX, Tr: TrX + ?Sized> World<T, M, Tr> {
         }
         if T::SIZE != 0 && a.capacity() != cap { return Err(format!("capacity changed during construction: {} != {}", a.capacity(), cap)); }
         let (b, mb) = if need_b {
-            let mut b: AnyVec<Tr, M::Aux> = elem::lib(|| AnyVec::<Tr, M::Aux>::new_in::<T>(<M::Aux as MX>::make()));
+            // pre-reserved, so that operations on B never allocate during the edge
+            let mut b: AnyVec<Tr, M::Aux> = elem::lib(|| if <M::Aux as MX>::SIZEABLE { <M::Aux as MX>::with_capacity::<T, Tr>(16) } else { AnyVec::<Tr, M::Aux>::new_in::<T>(<M::Aux as MX>::make()) });
             let mut mb = Vec::with_capacity(16); // harness allocations stay outside the library window
             {
                 let mut t = b.downcast_mut::<T>().unwrap();
@@ -412,16 +414,19 @@ impl<T: Elem + SatisfyTraits<Tr>, M: MX, Tr: TrX + ?Sized> World<T, M, Tr> {
 
     pub fn do_iter_all(&mut self, api: Api, kind: IterKind, out: &mut Out) {
         let a = &mut self.a;
-        let r: Result<(usize, Vec<u16>), Caught> = guarded(|| match (api, kind) {
-            (Api::Erased, IterKind::Iter) => { let it = a.iter(); (it.len(), it.map(|e| e.downcast_ref::<T>().unwrap().id()).collect()) }
-            (Api::Erased, IterKind::IterMut) => { let it = a.iter_mut(); (it.len(), it.map(|mut e| e.downcast_mut::<T>().unwrap().id()).collect()) }
-            (Api::Erased, IterKind::IntoIterRef) => { let it = (&*a).into_iter(); (it.len(), it.map(|e| e.downcast_ref::<T>().unwrap().id()).collect()) }
-            (Api::Erased, IterKind::IntoIterMut) => { let it = (&mut *a).into_iter(); (it.len(), it.map(|mut e| e.downcast_mut::<T>().unwrap().id()).collect()) }
-            (Api::Typed, IterKind::Iter) => { let it = a.downcast_ref::<T>().unwrap().iter(); (it.len(), it.map(|e| e.id()).collect()) }
-            (Api::Typed, IterKind::IterMut) => { let it = a.downcast_mut::<T>().unwrap().iter_mut(); (it.len(), it.map(|e| e.id()).collect()) }
-            (Api::Typed, IterKind::IntoIterRef) => { let it = a.downcast_ref::<T>().unwrap().into_iter(); (it.len(), it.map(|e| e.id()).collect()) }
-            (Api::Typed, IterKind::IntoIterMut) => { let it = a.downcast_mut::<T>().unwrap().into_iter(); (it.len(), it.map(|e| e.id()).collect()) }
+        let mut ids: Vec<u16> = Vec::with_capacity(self.ma.len() + 8); // pre-reserved: no harness allocation inside the window
+        let idr = &mut ids;
+        let r: Result<usize, Caught> = guarded(move || match (api, kind) {
+            (Api::Erased, IterKind::Iter) => { let it = a.iter(); let n = it.len(); idr.extend(it.map(|e| e.downcast_ref::<T>().unwrap().id())); n }
+            (Api::Erased, IterKind::IterMut) => { let it = a.iter_mut(); let n = it.len(); idr.extend(it.map(|mut e| e.downcast_mut::<T>().unwrap().id())); n }
+            (Api::Erased, IterKind::IntoIterRef) => { let it = (&*a).into_iter(); let n = it.len(); idr.extend(it.map(|e| e.downcast_ref::<T>().unwrap().id())); n }
+            (Api::Erased, IterKind::IntoIterMut) => { let it = (&mut *a).into_iter(); let n = it.len(); idr.extend(it.map(|mut e| e.downcast_mut::<T>().unwrap().id())); n }
+            (Api::Typed, IterKind::Iter) => { let it = a.downcast_ref::<T>().unwrap().iter(); let n = it.len(); idr.extend(it.map(|e| e.id())); n }
+            (Api::Typed, IterKind::IterMut) => { let it = a.downcast_mut::<T>().unwrap().iter_mut(); let n = it.len(); idr.extend(it.map(|e| e.id())); n }
+            (Api::Typed, IterKind::IntoIterRef) => { let it = a.downcast_ref::<T>().unwrap().into_iter(); let n = it.len(); idr.extend(it.map(|e| e.id())); n }
+            (Api::Typed, IterKind::IntoIterMut) => { let it = a.downcast_mut::<T>().unwrap().into_iter(); let n = it.len(); idr.extend(it.map(|e| e.id())); n }
         });
+        let r = r.map(|n| (n, ids));
         match r {
             Err(Caught::Injected) => out.faulted = true,
             Err(Caught::Panic(m)) => out.fail(Class::Vec, "unexpected-panic", format!("iteration panicked: {m}")),
@@ -503,10 +508,33 @@ impl<T: Elem + SatisfyTraits<Tr>, M: MX, Tr: TrX + ?Sized> World<T, M, Tr> {
             if !snap_matches::<T>(&sa, &ma) { out.fail(Class::Vec, "seq-mismatch", format!("vector {} != model {}", fmt_snap(&sa), fmt_model(&ma))); }
         }
         if a.len() > a.capacity() { out.fail(Class::Cap, "len-gt-cap", format!("len {} > capacity {}", a.len(), a.capacity())); }
+        // views of the state the history really reached (not a canonical reconstruction): aligned and coherent (C12)
+        {
+            let base = a.downcast_ref::<T>().map(|t| t.as_ptr() as usize).unwrap_or(0);
+            let inline_overaligned = matches!(M::KIND, BK::Stack | BK::StackN) && T::ALIGN > 8;
+            if base % T::ALIGN != 0 && !inline_overaligned {
+                out.fail(Class::Mem, "storage-misaligned", format!("after the operation the storage pointer {base:#x} is not aligned to {} (len {}, cap {})", T::ALIGN, a.len(), a.capacity()));
+            } else if base % T::ALIGN == 0 {
+                let b = a.as_bytes();
+                if b.as_ptr() as usize != base || b.len() != a.len() * T::SIZE { out.fail(Class::Vec, "views-incoherent", format!("as_bytes covers {:#x}+{} but the typed slice is {base:#x}+{}x{}", b.as_ptr() as usize, b.len(), a.len(), T::SIZE)); }
+            }
+        }
         let mut sb = Vec::new();
         if let Some(b) = &b {
             sb = snap::<T, Tr, M::Aux>(b);
             if !out.faulted && !snap_matches::<T>(&sb, &mb) { out.fail(Class::Vec, "other-seq-mismatch", format!("other vector {} != model {}", fmt_snap(&sb), fmt_model(&mb))); }
+        }
+        // accounting by value for element types without drop glue (C03): a value leaves the vectors only by being removed
+        if !out.faulted && !out.leak_ok && !T::HAS_DROP && T::SIZE != 0 {
+            let visible: std::collections::HashSet<u16> = sa.iter().chain(sb.iter()).map(|x| x.0).collect();
+            for m in ma.iter().chain(mb.iter()) {
+                if let Mv::Id(id) = m { if !visible.contains(id) { out.fail(Class::Own, "lost-value", format!("value {id} (no drop glue) should still be in a vector but is gone: it left without being removed")); } }
+            }
+        }
+        if !out.faulted && !out.leak_ok && T::SIZE == 0 {
+            let want = ma.len() + mb.len();
+            let have = sa.len() + sb.len();
+            if have != want { out.fail(Class::Own, "count-mismatch", format!("{have} zero-sized elements visible, accounting by count says {want}")); }
         }
         // every visible element is alive, intact and appears once
         if T::SIZE != 0 {
@@ -688,9 +716,16 @@ impl<T: Elem + SatisfyTraits<Tr>, M: MX, Tr: TrX + ?Sized> Runner for Cfg<T, M, 
         let need_b = edge_needs_b(e);
         let mut w = match World::<T, M, Tr>::build(st, need_b) {
             Ok(w) => w,
-            Err(msg) => { out.fail(Class::Machinery, "construction", msg); return out; }
+            Err(msg) => {
+                if M::build_panics(T::SIZE) && msg.starts_with("construction panicked") { out.outcome.push_str("construct-panics"); }
+                else if let Some(m) = msg.strip_prefix("FIXED-CAPACITY: ") { out.fail(Class::Cap, "fixed-capacity", format!("{}: {m}", M::name())); }
+                else { out.fail(Class::Machinery, "construction", msg); }
+                return out;
+            }
         };
+        if M::build_panics(T::SIZE) { out.fail(Class::Cap, "missing-construct-panic", format!("{} for a {}-byte element must panic at construction (N elements do not fit in SIZE bytes)", M::name(), T::SIZE)); return out; }
         // construction done: arm the fault injector, forget construction-time user calls
+        galloc::with_as(|st| st.clear_log());
         elem::with_reg(|r| { r.user_calls = 0; r.fault_at = fault_at; r.fault_fired = false; });
         let pre_len = w.ma.len();
         match *e {
@@ -717,6 +752,9 @@ impl<T: Elem + SatisfyTraits<Tr>, M: MX, Tr: TrX + ?Sized> Runner for Cfg<T, M, 
             Edge::WrongSwap(kind, ty) => w.do_wrong_swap(kind, ty, &mut out),
             Edge::WrongDowncast(kind, ty) => w.do_wrong_downcast(kind, ty, &mut out),
             Edge::TypeReports(_) => w.do_type_reports(&mut out),
+            Edge::RawParts { variant, then } => w.do_raw_parts(variant, then, &mut out),
+            Edge::Bytes { variant: 6, k } => w.do_placement(k as usize * 8, &mut out),
+            Edge::Bytes { variant, k } => w.do_bytes(variant, k as usize, &mut out),
             Edge::Cap(api, call, n) => w.do_cap(api, call, ix(n), &mut out),
             Edge::CloneVec { then } => w.do_clone(then, &mut out),
             Edge::CloneEmpty { then } => w.do_clone_empty(then, &mut out),
@@ -725,6 +763,11 @@ impl<T: Elem + SatisfyTraits<Tr>, M: MX, Tr: TrX + ?Sized> Runner for Cfg<T, M, 
             _ => { out.fail(Class::Machinery, "unimplemented-edge", format!("{e:?}")); }
         }
         elem::with_reg(|r| { r.fault_at = 0; out.user_calls = r.user_calls; if r.fault_fired { out.faulted = true; } });
+        // (a panicking operation allocates its payload in std's panic machinery: not the vector's doing)
+        if matches!(M::KIND, BK::Stack | BK::StackN) && !matches!(e, Edge::CloneEmptyIn { target: 0, .. } | Edge::IterProto { .. }) && !out.outcome.contains("panic") && out.fails.is_empty() && !out.faulted {
+            let n = galloc::with_as(|st| st.allocs + st.reallocs);
+            if n != 0 { out.fail(Class::Alloc, "stack-allocates", format!("{n} heap allocation call(s) inside an operation on a {}-backed vector", M::name())); }
+        }
         if out.faulted && fault_at != 0 { w.battery(&mut out); }
         w.finish(pre_len, &mut out);
         out
